@@ -42,7 +42,8 @@ def seeds():
            'measured with `tools/with_patch.sh seeded/<id>/patch.diff ./check <ID> quick` (the registered quick command against a',
            'bind-mounted copy of `/repo` with the diff applied); "MISSED by the first version" records where a check had to be',
            'strengthened — always by a generator family or clause for the *class* of input, never by the breaker\'s own demo input',
-           '(corpus lines taken from a demo are noted as such in the per-property section).\n',
+           '(corpus lines taken from a demo are noted as such in the per-property section). `seeded/RESULTS.md` is the last full',
+           'measurement: every seeded change against the final checks (exit code, VIOLATION lines, concrete replays).\n',
            '| seed | what the change breaks | needs, to manifest | caught by |', '|---|---|---|---|']
     n = 0
     metas = [(os.path.basename(os.path.dirname(p)), json.load(open(p))) for p in sorted(glob.glob(os.path.join(ROOT, 'seeded/*/meta.json')))]
